@@ -286,17 +286,22 @@ Proof.
 Qed.
 
 (* the compiler accepts exactly what entityNode.run accepts: closedness never fails *)
-Theorem compile_expand : forall e, fields_ok e = true -> compile e = expand e.
+Theorem compile_expand : forall e,
+  fields_ok e = true -> query_params_ok e = true -> command_params_ok e = true -> compile e = expand e.
 Proof.
-  intros e Hok. unfold compile, expand.
+  intros e Hok Hq Hc. unfold compile, expand.
   destruct (default_filters e _) as [fl|]; [|reflexivity].
-  destruct (nodup_bytes _); [|reflexivity]. now rewrite expand_closed, Hok.
+  destruct (nodup_bytes _); [|reflexivity]. now rewrite expand_closed, Hok, Hq, Hc.
 Qed.
 
-(* the only compile error the expansion itself can cause is the optional/required clash of
-   a user-declared field; "type not found" never happens *)
+(* the only compile errors the expansion itself can cause are the optional/required clash of a
+   user-declared field and a path parameter that is not a request field; "type not found"
+   never happens *)
 Theorem compile_errors : forall e cs, expand e = Ok cs ->
-  compile e = if fields_ok e then Ok cs else Err "cannot be both required and optional".
+  compile e = if fields_ok e then
+                if query_params_ok e && command_params_ok e then Ok cs
+                else Err "missing field in request"
+              else Err "cannot be both required and optional".
 Proof.
   intros e cs H. unfold compile. rewrite H.
   unfold expand in H. destruct (default_filters e _) as [fl|]; [|discriminate].
@@ -771,4 +776,63 @@ Proof.
   - unfold event_type_msg. cbn [m_fields]. now rewrite map_map.
   - now rewrite map_length.
   - now rewrite map_map.
+Qed.
+
+(* ---- the generated query methods never miss a path field --------------------------------------- *)
+Lemma path_params_app : forall base rel,
+  path_params (base ++ [47] ++ rel) = path_params base ++ path_params rel.
+Proof.
+  intros base rel. unfold path_params. cbn [app]. rewrite split_slash_app_slash. apply flat_map_app.
+Qed.
+
+Definition param_of (p : bytes) : list bytes := match p with 58 :: name => [name] | _ => [] end.
+
+Lemma path_params_eq : forall r, path_params r = flat_map param_of (split_slash [] r).
+Proof. reflexivity. Qed.
+
+Lemma params_key_path : forall ks, flat_map param_of (key_path ks) = map uf_name ks.
+Proof.
+  induction ks as [|u ks IH]; [reflexivity|].
+  change (key_path (u :: ks)) with (([58] ++ uf_name u) :: key_path ks).
+  cbn [flat_map]. change (param_of ([58] ++ uf_name u)) with [uf_name u].
+  cbn [app map]. now rewrite IH.
+Qed.
+
+Lemma params_ok_keys : forall base ks tail extra,
+  path_params base = [] ->
+  Forall (fun u => no_slash (uf_name u) = true) ks ->
+  tail = [] \/ tail = [bs "events"] ->
+  params_ok (map uf_name ks ++ extra) (path_join base (join [47] (key_path ks ++ tail))) = true.
+Proof.
+  intros base ks tail extra Hb Hk Ht. unfold params_ok, path_join.
+  destruct (join [47] (key_path ks ++ tail)) as [|c l] eqn:Ej; [now rewrite Hb|].
+  rewrite <- Ej. change (base ++ 47 :: join [47] (key_path ks ++ tail))
+    with (base ++ [47] ++ join [47] (key_path ks ++ tail)).
+  rewrite path_params_app, Hb. cbn [app]. rewrite path_params_eq, split_join.
+  - rewrite flat_map_app, params_key_path.
+    assert (Et : flat_map param_of tail = []) by (destruct Ht as [->| ->]; reflexivity).
+    rewrite Et, app_nil_r. apply forallb_forall. intros p Hp.
+    apply existsb_exists. exists p. split; [apply in_or_app; now left|apply bytes_eqb_refl].
+  - intros H. rewrite H in Ej. discriminate.
+  - apply Forall_app. split.
+    + unfold key_path. apply Forall_map. eapply Forall_impl; [|exact Hk]. intros u Hu. exact Hu.
+    + destruct Ht as [->| ->]; repeat constructor.
+Qed.
+
+Theorem query_params_always_ok : forall e,
+  path_params (query_base e) = [] ->
+  Forall (fun k => no_slash (uf_name (k_def k)) = true) (e_keys e) ->
+  query_params_ok e = true.
+Proof.
+  intros e Hb Hk. unfold query_params_ok. fold (query_base e).
+  assert (Hg : Forall (fun u => no_slash (uf_name u) = true) (get_keys e)).
+  { unfold get_keys. apply Forall_map. apply Forall_forall. intros k Hin.
+    apply filter_In in Hin. destruct Hin as [Hin _]. rewrite Forall_forall in Hk. now apply Hk. }
+  assert (Hl : Forall (fun u => no_slash (uf_name u) = true) (list_keys e)).
+  { unfold list_keys. apply Forall_map. apply Forall_forall. intros k Hin.
+    apply filter_In in Hin. destruct Hin as [Hin _]. rewrite Forall_forall in Hk. now apply Hk. }
+  pose proof (params_ok_keys (query_base e) (get_keys e) [] [] Hb Hg (or_introl eq_refl)) as H1.
+  pose proof (params_ok_keys (query_base e) (list_keys e) [] [bs "page"; bs "query"] Hb Hl (or_introl eq_refl)) as H2.
+  pose proof (params_ok_keys (query_base e) (get_keys e) [bs "events"] [bs "page"; bs "query"] Hb Hg (or_intror eq_refl)) as H3.
+  rewrite !app_nil_r in H1. rewrite !app_nil_r in H2. rewrite H1, H2, H3. reflexivity.
 Qed.
